@@ -173,7 +173,7 @@ pub fn raw_model(l: &[Ent], cap: usize, op: Op) -> Option<(Ret, L, usize)> {
                 (Ret::BoolOrPut(false, Some(r)), l2, cap)
             }
         }
-        Op::CloneReplace => (Ret::Unit, l.to_vec(), cap),
+        Op::CloneReplace | Op::CloneFromReplace => (Ret::Unit, l.to_vec(), cap),
         _ => return None,
     })
 }
@@ -699,6 +699,9 @@ pub fn check_state(cfg: &Cfg, sres: &StateRes, en: &BTreeSet<&'static str>, c: &
 
     // ---- C14
     for p in &sres.iter_problems {
+        if let Some(f) = iter_panic(cfg, p) {
+            out.push(f);
+        }
         out.push(Finding::new("C14", "iterator_words", p.split(':').next().unwrap_or("").to_string(), format!("{} in state {}", p, show(cfg, snap))));
     }
     if let Some(after) = &sres.snap_after_iters {
@@ -1029,7 +1032,21 @@ pub fn check_trans(cfg: &Cfg, pre: &Snap, probe: &Probe, op: Op, t: &TransRes, e
             out.push(Finding::new("C01", "len_equals_contains_count", format!("{:?}", cfg.kind), format!("len() returned {:?} but contains() is true for {} keys: {}", lenr, n_contains, ctx(Some(post)))));
         }
     }
+    if let Op::FromItems(_) = op {
+        // what a conversion builds (capacity, which duplicate wins) is not specified by any property; the object it
+        // builds is a reachable state and is judged as one: monitors above, state clauses and iterators here
+        for p in &t.iter_problems {
+            if let Some(f) = iter_panic(cfg, p) {
+                out.push(f);
+            }
+            out.push(Finding::new("C14", "iterator_words_after_transition", p.split(':').next().unwrap_or("").to_string(), format!("{} — in the object built by {:?}", p, op)));
+        }
+        return out;
+    }
     for p in &t.iter_problems {
+        if let Some(f) = iter_panic(cfg, p) {
+            out.push(f);
+        }
         out.push(Finding::new("C14", "iterator_words_after_transition", p.split(':').next().unwrap_or("").to_string(), format!("{} — in the object reached by {}", p, ctx(Some(post)))));
     }
 
@@ -1214,7 +1231,7 @@ pub fn check_trans(cfg: &Cfg, pre: &Snap, probe: &Probe, op: Op, t: &TransRes, e
     match cfg.kind {
         Kind::Raw => {
             if let Some((eret, el, ecap)) = raw_model(&pre.lists[0], pre.scalars[0] as usize, op) {
-                let prop = if op == Op::CloneReplace { "C16" } else { "C06" };
+                let prop = if matches!(op, Op::CloneReplace | Op::CloneFromReplace) { "C16" } else { "C06" };
                 if *ret != eret {
                     out.push(Finding::new(prop, "lru_model.return_value", op_name(&op), format!("the LRU model returns {:?}: {}", eret, ctx(Some(post)))));
                 }
@@ -1393,6 +1410,12 @@ fn ret_class(r: &Ret) -> String {
 /// which findings does the property command `prop` own?
 pub fn owns(prop: &str, f: &Finding) -> bool {
     f.prop == prop
+}
+
+/// a panic inside an iterator (any interleaving of next / next_back) is a panic of a public operation (C05)
+fn iter_panic(cfg: &Cfg, problem: &str) -> Option<Finding> {
+    let m = problem.strip_prefix("iterator check panicked: ")?;
+    Some(Finding::new("C05", "no_panic", format!("{:?}:iterator:{}", cfg.kind, crate::panics::location_of(m)), format!("an iterator panicked while being driven from both ends: {}", m)))
 }
 
 pub fn op_name(op: &Op) -> String {
